@@ -485,6 +485,10 @@ class Configuration(_Configuration):
         return self.parser.tokeniser
 
     def _clear(self) -> None:
+        # a reload which failed left the section parsers with what they had parsed (only a committed reload
+        # cleaned them): the next reload, of a correct file, was refused with 'duplicate peer definition'
+        self._cleanup()
+        self._previous_processes = self.processes
         self.processes = {}
         self._previous_neighbors = self.neighbors
         self.neighbors = {}
@@ -524,7 +528,8 @@ class Configuration(_Configuration):
     def _rollback_reload(self) -> None:
         self.neighbor._staged_routes = []
         self.neighbors = self._previous_neighbors
-        self.processes = self.process.processes
+        # the processes which are running, not the part of the refused file which was parsed
+        self.processes = self._previous_processes
         self._neighbors = {}
         self._previous_neighbors = {}
 
